@@ -126,6 +126,15 @@ impl Decodable for StreamedPSBT {
                         input.witness_utxo = Some(output.clone());
                     }
                 } else {
+                    // Without the previous transaction the claimed output can only be trusted as far
+                    // as a signature commits to it: segwit (v0, v1, and p2sh-wrapped v0) sighashes
+                    // cover the amount, a legacy sighash does not.  A bare claim about a legacy
+                    // output would let the caller understate the value of an input we sign.
+                    if let Some(ref txo) = input.witness_utxo {
+                        if !txo.script_pubkey.is_witness_program() && !txo.script_pubkey.is_p2sh() {
+                            return Err(encode::Error::ParseFailed("missing utxo"));
+                        }
+                    }
                     segwit_flags.push(false);
                 }
 
